@@ -310,17 +310,7 @@ def run(ctx):
     ctx.ok("STATE", "package / STATE / module-level mutable state scanned", "forsys/*", f"{n_mod} modules")
     roots = [f"{FS}.build_force_matrix", f"{FS}.solve_stress", f"{FS}.build_pressure_matrix", f"{FS}.solve_pressure", f"{FS}.get_system_velocity_per_frame",
              f"{FS}.__post_init__", f"{FR}.__post_init__"]
-    n_def = 0
-    for q in sorted(repo.reachable(roots)):
-        fq = repo.functions[q]
-        for pname, d in fq.defaults().items():
-            if isinstance(d, (ast.Dict, ast.List, ast.Set)):
-                n_def += 1
-                muts = [st_ for st_ in repo.stores(fq) if st_["attr"] == "$" + pname and st_["kind"] in ("elem", "mut", "del_elem")]
-                for st_ in muts:
-                    ctx.violation("STATE", f"{q} / STATE / mutable default argument `{pname}` mutated", ctx.where(fq, st_["node"]),
-                                  f"`{fq.module.line(st_['node'].lineno)}` writes into the default value of `{pname}`, which is shared by all calls")
-    ctx.ok("STATE", "closure / STATE / mutable default arguments scanned", "forsys/*", f"{n_def} mutable defaults on the inference closure, none mutated" if True else "")
+    rules.no_mutated_defaults(ctx, roots)
 
     ctx.clause("the last call's arguments are what the solver sees: the wrappers forward every option")
     for wrapper, callee in ((f"{FS}.solve_stress", f"{FM}.solve"), (f"{FS}.solve_pressure", "forsys.general_matrix.GeneralMatrix.solve_system")):
@@ -340,20 +330,8 @@ def run(ctx):
                   f"{wrapper.split('.')[-1]} does not forward **kwargs to {callee.split('.')[-1]}")
 
     ctx.clause("the matrices of frame t are built from frame t's own data")
-    for builder, store, ctor in (("build_force_matrix", "force_matrices", "new:forsys.fmatrix.ForceMatrix"),
-                                 ("build_pressure_matrix", "pressure_matrices", "new:forsys.pmatrix.PressureMatrix")):
-        fbuild = repo.func(f"{FS}.{builder}")
-        ctx.touch(fbuild)
-        sb_ = sym.summarize(repo, fbuild.qualname)
-        when = T.sym(fbuild.params[1]) if len(fbuild.params) > 1 else T.sym("when")
-        sts = [e for e in sb_.stores(store) if e.sub]
-        ok = len(sts) == 1 and sts[0].key == when and sts[0].value[0] == "call" and sts[0].value[1] == ctor and sts[0].value[2] \
-            and sts[0].value[2][0] == T.idx(T.attr(SELF, "frames"), when) and not sts[0].conds()
-        kw = dict(sts[0].value[3]) if sts else {}
-        ok_ts = kw.get("timeseries") == T.attr(SELF, "mesh") or (sts and len(sts[0].value[2]) > 1 and T.attr(SELF, "mesh") in sts[0].value[2])
-        ctx.check(ok and ok_ts, "ALIGN", f"{fbuild.qualname} / ALIGN / {store}[when] = matrix of frames[when] (timeseries = self.mesh)", ctx.where(fbuild),
-                  "key, frame and time series all belong to the requested frame",
-                  f"{store} entry is {T.show(T.alpha(sts[0].key)) if sts else '?'} <- {T.show(T.alpha(sts[0].value))[:160] if sts else '?'}: not built from the requested frame's own data")
+    rules.fresh_build(ctx, "force")
+    rules.fresh_build(ctx, "pressure")
 
 
 _P, _S, _F, _G = "forsys/fmatrix.py", "forsys/forsys.py", "forsys/frames.py", "forsys/general_matrix.py"
